@@ -652,6 +652,10 @@ declaratortypes(struct scope *s, struct list *result, char **name, struct scope 
 				t->u.func.params = NULL;
 				t->u.func.nparam = 0;
 			}
+			for (d = t->u.func.params; d; d = d->next) {
+				if (d->type->kind == TYPEVOID)
+					error(&tok.loc, "parameter has void type");
+			}
 			listinsert(ptr->prev, &t->link);
 			allowattr = true;
 			break;
